@@ -2,6 +2,7 @@ package props
 
 import (
 	"fmt"
+	"github.com/gobuffalo/plush/v5/vtick"
 	"html/template"
 	"strings"
 
@@ -216,7 +217,7 @@ func init() {
 			return s
 		},
 		Run:  c02Run,
-		Rule: "family A: every string over {< % > \\ = # a \" { \\n é} up to length L bare, and s1·TAG·s2 around each of 4 generated tags (|s1|<=3,|s2|<=2), compared with a left-to-right reference scanner that knows only the two escapes; templates whose reference scan meets a live <% that is not the generated tag are outside the grammar (totality only). Family B: <%= \"S\" %> / <%= `S` %> / let-bound / helper-argument string literals for every body S over {a \\ \" % > < # \\n é } space `} up to length L that the reference tokeniser closes at its own quote; expected = HTML-escape(denotation). Family C: every sequence of <=3 items from {text, output tag, output of a template function that has literal text and an explicit return, 24 silent constructs (expression/let/assign/if/for/comment/line-comment/fn statements incl. values that are HTML)} in 12 placements (top, if, else, for, fn body, helper block, for+if, iterator loop ending in break, slice loop ending in continue, map loop ending in break, a helper's block in a loop body ending in break / continue); expected = the same sequence with silent items deleted. Family E: every sequence of <=3 (4) pieces from {a, CRLF, CR, LF, TAB, space, NUL, 0xFF, VT+FF, é, an output tag, a silent tag, string literals containing CRLF / CR}: copied byte for byte; templates differing only in surrounding white space rendered alternately with the cache on. Family D: comment tags whose body is any string of <=3 (4) symbols over {a \" ' # ` < % { } ( \\n space \\ = let 1.2.3} not containing the closing delimiter, spaced and tight, at top level and inside a block: the tag contributes nothing and the template continues after its %>. Non-trivial: contains an escape-relevant byte next to a boundary / a silent item.",
+		Rule: "family A: every string over {< % > \\ = # a \" { \\n é} up to length L bare, and s1·TAG·s2 around each of 4 generated tags (|s1|<=3,|s2|<=2), compared with a left-to-right reference scanner that knows only the two escapes; templates whose reference scan meets a live <% that is not the generated tag are outside the grammar (totality only). Family B: <%= \"S\" %> / <%= `S` %> / let-bound / helper-argument string literals for every body S over {a \\ \" % > < # \\n é } space `} up to length L that the reference tokeniser closes at its own quote; expected = HTML-escape(denotation). Family C: every sequence of <=3 items from {text, output tag, output of a template function that has literal text and an explicit return, 24 silent constructs (expression/let/assign/if/for/comment/line-comment/fn statements incl. values that are HTML)} in 12 placements (top, if, else, for, fn body, helper block, for+if, iterator loop ending in break, slice loop ending in continue, map loop ending in break, a helper's block in a loop body ending in break / continue); expected = the same sequence with silent items deleted. Family E: every sequence of <=3 (4) pieces from {a, CRLF, CR, LF, TAB, space, NUL, 0xFF, VT+FF, é, an output tag, a silent tag, string literals containing CRLF / CR}: copied byte for byte; a byte-order mark among the pieces; text and values produced 5..130 levels deep (recursive function, nested blocks); templates differing only in surrounding white space rendered alternately with the cache on. Family D: comment tags whose body is any string of <=3 (4) symbols over {a \" ' # ` < % { } ( \\n space \\ = let 1.2.3} not containing the closing delimiter, spaced and tight, at top level and inside a block: the tag contributes nothing and the template continues after its %>. Non-trivial: contains an escape-relevant byte next to a boundary / a silent item.",
 		Bound: func(th bool) string {
 			if th {
 				return "A: bare |s|<=6, around |s1|<=3 |s2|<=2, core alphabet {\\ < % a} bare |s|<=10 and before/around a tag |s|<=8; B: |S|<=5; C: sequences <=3"
@@ -239,7 +240,7 @@ func c02Run(t *engine.T, shard string) {
 		// family E: literal text is copied byte for byte - carriage returns, every other control byte, any encoding,
 		// outside tags, between tags and inside string literals; also when templates that differ only in surrounding
 		// white space are rendered one after the other with the cache on
-		pieces := []string{"a", "\r\n", "\r", "\n", "\t", " ", "\x00", "\xff", "\x0b\x0c", "é", `<%= "v" %>`, `<% let q = 1 %>`, "<%= \"x\r\ny\" %>", "<%= `p\r\nq\r` %>"}
+		pieces := []string{"a", "\xef\xbb\xbf", "\r\n", "\r", "\n", "\t", " ", "\x00", "\xff", "\x0b\x0c", "é", `<%= "v" %>`, `<% let q = 1 %>`, "<%= \"x\r\ny\" %>", "<%= `p\r\nq\r` %>"}
 		denote := map[string]string{`<%= "v" %>`: "v", `<% let q = 1 %>`: "", "<%= \"x\r\ny\" %>": "x\r\ny", "<%= `p\r\nq\r` %>": "p\r\nq\r"}
 		L := 3
 		if t.Thorough {
@@ -259,6 +260,31 @@ func c02Run(t *engine.T, shard string) {
 				return "match", nil
 			})
 		})
+		// values and text produced at great nesting depth are part of the output like any other
+		for _, depth := range []int{5, 33, 40, 70, 130} {
+			depth := depth
+			t.Case(fmt.Sprintf("bytes recursion depth %d", depth), true, func() (string, *engine.Fail) {
+				vtick.Reset(40_000_000)
+				src := `<% let f = fn(n) { %>(<%= n %><%= if (n > 0) { %><%= f(n - 1) %><% } %>)<% } %><%= f(` + fmt.Sprint(depth) + `) %>`
+				var want strings.Builder
+				for n := depth; n >= 0; n-- {
+					fmt.Fprintf(&want, "(%d", n)
+				}
+				want.WriteString(strings.Repeat(")", depth+1))
+				out, err := Render(src, plush.NewContext())
+				if err != nil || out != want.String() {
+					return "", engine.Failf("mismatch", "expected %d balanced levels %q, got %q / %v", depth+1, want.String(), out, err)
+				}
+				open := strings.Repeat(`<%= if (true) { %>[`, depth)
+				src2 := open + "x" + strings.Repeat(`]<% } %>`, depth)
+				want2 := strings.Repeat("[", depth) + "x" + strings.Repeat("]", depth)
+				out, err = Render(src2, plush.NewContext())
+				if err != nil || out != want2 {
+					return "", engine.Failf("mismatch", "%d nested blocks: expected %q, got %q / %v", depth, want2, out, err)
+				}
+				return "match", nil
+			})
+		}
 		for _, base := range []string{"x", "a<%= 1 %>b", "<% let q = 1 %><%= q %>"} {
 			for _, v := range [][2]string{{" ", ""}, {"", " "}, {"\n", "\n"}, {"  ", "\n"}, {"\t", ""}, {"", "\r\n"}} {
 				base, v := base, v
